@@ -84,9 +84,13 @@ func ruleC07Count(c *Ctx) {
 			}
 			cond, truth := normCond(f.Cond, f.Truth)
 			if ex, ok := cond.(*ssa.Extract); ok && ex.Index == 1 && truth {
-				if ta, ok := ex.Tuple.(*ssa.TypeAssert); ok && isNamed(ta.AssertedType, modPath+"/sizes", "ReferenceRoot") {
-					nAssert++
-					continue
+				if ta, ok := ex.Tuple.(*ssa.TypeAssert); ok {
+					// the interface of reference roots, or the one concrete
+					// type that implements it (what CollectReferences returns)
+					if n := namedOf(ta.AssertedType); n != nil && n.Obj().Pkg() != nil && n.Obj().Pkg().Path() == modPath+"/sizes" && (tname(n.Obj()) == "ReferenceRoot" || tname(n.Obj()) == "RefRoot") {
+						nAssert++
+						continue
+					}
 				}
 			}
 			if f.If.Block() == l.Head {
